@@ -6,15 +6,18 @@
 # Then runs our check(s) against it (applied to /repo, reverted straight afterwards) and archives everything
 # under /verif/seeded/<ID>-<k>/ (patch.diff, demo.rs, notes.md, meta.json).
 ID="$1"; K="$2"; CHECKS="${3:-$ID}"
-SRC=/tmp/seed_out/$ID; WT=/tmp/seedwt; OUT=/verif/seeded/$ID-$K
+SRC=/tmp/seed_out/$ID; WT=${SEEDWT:-/tmp/seedwt}; OUT=/verif/seeded/$ID-$K
+# PHASE=A: confirmation only (parallelisable: SEEDWT / SEEDWT_TARGET select a private worktree); PHASE=B: checks + archive from the saved state
+PHASE=${PHASE:-AB}; STATE=$SRC/state$K; APPLIED=$SRC/applied$K.diff
 P=$SRC/patch$K.diff; D=$SRC/demo$K.rs
 [ -f "$P" ] || { echo "no patch $P"; exit 2; }
-export CARGO_NET_OFFLINE=true CARGO_TARGET_DIR=/tmp/seedwt_target
+export CARGO_NET_OFFLINE=true CARGO_TARGET_DIR=${SEEDWT_TARGET:-/tmp/seedwt_target}
+if [ $PHASE != B ]; then
 if [ ! -d $WT ]; then git -C /repo worktree add -f --detach $WT HEAD >/dev/null 2>&1 || exit 2; fi
 cd $WT && git checkout -q --detach $(git -C /repo rev-parse HEAD) && git checkout -q -- . && git clean -fdq
 if ! git apply "$P" 2>/dev/null; then patch -p1 --fuzz=3 -s < "$P" || { echo "PATCH DOES NOT APPLY"; git checkout -q -- .; exit 3; }; fi
 find . -name '*.orig' -delete
-git diff > /tmp/seed_applied.diff
+git diff > $APPLIED
 # (1) repository suite with the change
 SUITE=$(cargo test --workspace --no-fail-fast --offline 2>&1 | grep -E "^test result|^test .* FAILED|error(\[|:)" )
 NFAIL=$(echo "$SUITE" | grep -c "FAILED$" ); NBASE=$(echo "$SUITE" | grep -c "priv_string_tests::invalid_.* FAILED")
@@ -25,24 +28,29 @@ cp "$D" konst/tests/seed_demo.rs
 DEMO_CMD="cargo test --offline -p konst --features rust_1_83,alloc --test seed_demo"
 # MIRI_DEMO=1: the demonstration only fails under the interpreter (UB without a natively visible wrong result)
 if [ "${MIRI_DEMO:-0}" = 1 ]; then DEMO_CMD="env MIRIFLAGS=-Zmiri-disable-isolation CARGO_TARGET_DIR=/tmp/seedwt_target_miri cargo +nightly miri test --offline -p konst --features rust_1_83,alloc --test seed_demo"; fi
-$DEMO_CMD > /tmp/seed_demo_with.txt 2>&1; RC_WITH=$?
+$DEMO_CMD > /tmp/seed_demo_with_$ID$K.txt 2>&1; RC_WITH=$?
 # (3) demo without the change
 git checkout -q -- . ; cp "$D" konst/tests/seed_demo.rs
-$DEMO_CMD > /tmp/seed_demo_without.txt 2>&1; RC_WITHOUT=$?
+$DEMO_CMD > /tmp/seed_demo_without_$ID$K.txt 2>&1; RC_WITHOUT=$?
 rm -f konst/tests/seed_demo.rs; git checkout -q -- .; git clean -fdq
 echo "confirm $ID-$K: suite_ok=$SUITE_OK (failed tests: $NFAIL, baseline: $NBASE) demo_with_rc=$RC_WITH demo_without_rc=$RC_WITHOUT"
 CONFIRMED=no; if [ $SUITE_OK = yes ] && [ $RC_WITH != 0 ] && [ $RC_WITHOUT = 0 ]; then CONFIRMED=yes; fi
+echo "CONFIRMED=$CONFIRMED NFAIL=$NFAIL" > $STATE
+if [ $CONFIRMED != yes ]; then echo "  NOT CONFIRMED"; tail -5 /tmp/seed_demo_with_$ID$K.txt | cut -c1-200; tail -3 /tmp/seed_demo_without_$ID$K.txt | cut -c1-200; fi
+fi
+[ $PHASE = A ] && exit 0
+. $STATE
 # our checks
 RES=""
 for C in $CHECKS; do
-  /verif/tools/seedtest.sh /tmp/seed_applied.diff $C quick > /tmp/seed_check_$C.txt 2>&1; RC=$?
+  /verif/tools/seedtest.sh $APPLIED $C quick > /tmp/seed_check_$C.txt 2>&1; RC=$?
   FIRST=$(grep -a -m1 -A1 "VIOLATION" /tmp/seed_check_$C.txt | tail -1 | cut -c1-300)
   echo $RC > /tmp/seed_check_$C.rc
   RES="$RES $C"
   echo "  check $C exit=$RC $FIRST"
 done
 if [ $CONFIRMED = yes ]; then
-  mkdir -p $OUT; cp /tmp/seed_applied.diff $OUT/patch.diff; cp "$D" $OUT/demo.rs; [ -f $SRC/notes$K.md ] && cp $SRC/notes$K.md $OUT/notes.md
+  mkdir -p $OUT; cp $APPLIED $OUT/patch.diff; cp "$D" $OUT/demo.rs; [ -f $SRC/notes$K.md ] && cp $SRC/notes$K.md $OUT/notes.md
   python3 - "$ID" "$K" "$OUT" "$RES" "$NFAIL" <<'PY'
 import json,sys,subprocess
 pid,k,out,res,nfail=sys.argv[1:6]
@@ -57,5 +65,5 @@ meta={"property":pid,"seed":f"{pid}-{k}","source":"independent sub-agent given o
 json.dump(meta,open(out+'/meta.json','w'),indent=1)
 PY
 else
-  echo "  NOT CONFIRMED - not kept"; tail -5 /tmp/seed_demo_with.txt | cut -c1-200; tail -3 /tmp/seed_demo_without.txt | cut -c1-200
+  echo "  NOT CONFIRMED - not kept"
 fi
